@@ -619,8 +619,8 @@ Section Interp.
                        else merr Mem.E_INVALID_NODE
           end
         else mret false
-      | NIntSwissKnife k _ => if elem_readable n then vars_readable (k_vars k) true else mret false
-      | NSwissKnife k _ => mret (elem_readable n)
+      | NIntSwissKnife k _ | NSwissKnife k _ =>
+        if elem_readable n then vars_readable (k_vars k) true else mret false
       | NIntConverter k _ _ p | NConverter k _ _ p =>
         if elem_readable n then
           let! a := nid_readable_strict p in
